@@ -558,8 +558,17 @@ impl<'a> Gen<'a> {
         for (i, s) in path.iter().enumerate() {
             match s {
                 Seg::Key(k) => {
-                    if self.r.chance(1, 10) {
+                    let c = self.r.below(20);
+                    if c < 2 {
                         parts.push(Part::Star);
+                    } else if c < 4 {
+                        // another spelling of the key: resolved through the case converters
+                        let vars = doc::case_variants(k);
+                        if vars.is_empty() {
+                            parts.push(Part::Key(k.clone()));
+                        } else {
+                            parts.push(Part::Key(vars[self.r.usize(vars.len())].clone()));
+                        }
                     } else {
                         parts.push(Part::Key(k.clone()));
                     }
